@@ -5,7 +5,7 @@ export TMPDIR=$(mktemp -d /tmp/evalseed.XXXX)
 d=$1; shift
 cd /repo || exit 2
 [ -z "$(git status --porcelain)" ] || { echo "repo dirty"; exit 2; }
-pkgdir=$(grep -m1 -oE '(copy|copied|goes?|place|put)[^\n]*' $d/demo_test.go | head -1 >/dev/null; head -12 $d/demo_test.go | grep -oE '(pkg/[a-z0-9/]+|internal/[a-z0-9/]+|repository root|root package|root of the repo)' | head -1)
+pkgdir=$(grep -m1 -oE '(copy|copied|goes?|place|put)[^\n]*' $d/demo_test.go | head -1 >/dev/null; head -12 $d/demo_test.go | grep -oE '(pkg/[a-z0-9/]+|internal/[a-z0-9/]+|cmd/[a-z0-9/-]+|repository root|root package|root of the repo)' | head -1)
 case "$pkgdir" in "repository root"|"root package"|"root of the repo"|"") pk=$(grep -m1 '^package ' $d/demo_test.go | awk '{print $2}'); if [ "$pk" = "gostatsd" ]; then pkgdir=.; else pkgdir=$(grep -rl --include=*.go "^package $pk\$" pkg internal 2>/dev/null | head -1 | xargs dirname); fi;; esac
 echo "seed=$d pkgdir=$pkgdir"
 git apply --check $d/patch.diff || { echo "PATCH-DOES-NOT-APPLY"; exit 1; }
